@@ -1,8 +1,17 @@
 #!/bin/bash
 # usage: run-server-tests.sh <worktree> [extra go test args...]
-# The ./server test-suite starts a NATS server on the fixed port 4222, so only one
-# instance may run on this machine at a time: this wrapper serialises them.
+# The ./server test-suite starts a NATS server on the fixed port 4222. Each run gets
+# its own network namespace (own loopback), so several suites can run side by side;
+# at most 4 at a time (slots are lock files) to keep the timing-sensitive tests honest.
 wt="$1"; shift
 cd "$wt" || exit 2
 export GOFLAGS=-mod=mod GOPROXY=off
-exec flock /tmp/server-tests.lock go test -count=1 -vet=off -timeout 25m "$@" ./server
+while :; do
+  for i in 1 2 3 4; do
+    exec 9>/tmp/server-tests.slot$i
+    if flock -n 9; then
+      exec unshare -n sh -c 'ip link set lo up; exec go test -count=1 -vet=off -timeout 25m "$@" ./server' sh "$@"
+    fi
+  done
+  sleep 5
+done
